@@ -7,7 +7,7 @@ path is collected into `run.trusted` and ends up in the evidence of the property
 import z3
 
 from . import sym, lemmas
-from .sym import (SV, SNum, SBool, SKey, SVal, SFn, SDict, SSet, SList, STuple, SObj, NONE, TInt, TNum, TNumK,
+from .sym import (SV, SNum, SBool, SKey, SVal, SFn, SDict, SSet, SList, STuple, SObj, NONE, TInt, TNum, TNumK, SNDArray, TNDArray,
                   TBool, TKey, TVal, TFn, TDict, TSet, TList, TTuple, TObj, pack, snapshot, fresh_name)
 
 
@@ -59,10 +59,30 @@ MMAX = {}
 
 
 def load_item(run, c, k):
-    if isinstance(c, NDArray):
-        idx = run.index(c.lst, k)
-        return SNum(c.lst.load(idx), np=z3.BoolVal(True), fin=z3.Not(c.nan[idx]))
+    if isinstance(c, SNDArray):
+        idx = run.index(c, k)
+        return SNum(z3.simplify(c.arr[idx]), np=z3.BoolVal(True), fin=z3.Not(c.nan[idx]))
     return None
+
+
+VALUE_ATTRS = {'numpy.nan', 'numpy.NaN', 'numpy.NAN', 'numpy.inf', 'numpy.Inf'}
+
+
+def module_value(run, path):
+    """a module attribute used as a value.  Environment obligation: the attribute must exist in the INSTALLED library
+    (decided concretely when the VC is generated): a missing attribute raises AttributeError, as in CPython"""
+    import importlib
+    modname, attr = path.rsplit('.', 1)
+    try:
+        mod = importlib.import_module(modname)
+    except ImportError:
+        raise _sx().Unsupported("module " + modname + " not importable for the environment obligation")
+    run.trusted.add(f"environment: attribute {path} looked up in the installed {modname} {getattr(mod, '__version__', '')}")
+    if not hasattr(mod, attr):
+        raise _sx().PyRaise('AttributeError', f"module '{modname}' has no attribute '{attr}' (installed version {getattr(mod, '__version__', '?')})")
+    v = SNum(z3.RealVal(0), np=z3.BoolVal(True), fin=z3.BoolVal(False))
+    v.isnan = attr.lower() == 'nan'
+    return v
 
 
 def contains(run, c, x):
@@ -282,12 +302,20 @@ def np_array(run, x):
         nan = getattr(x, 'nan_mask', None)
         if nan is None:
             nan = z3.K(z3.IntSort(), z3.BoolVal(False))
-        return NDArray(SList(x.typ, x.get()), nan)
+        return SNDArray(TNDArray, TNDArray.mk(x.n, x.arr, nan))
     raise sx.Unsupported("np.array of " + repr(x))
 
 
+NANSTAT = {w: z3.Function('np_' + w, TNDArray.sort(), z3.RealSort()) for w in ('nanmean', 'nanvar', 'nanstd')}
+
+
 def np_nanstat(run, which, arr):
-    raise _sx().Unsupported("nan statistics are handled by the C11 contract layer")
+    """np.nanmean / nanvar / nanstd: a function of the array content (the statistic of its non-NaN entries)"""
+    sx = _sx()
+    if not isinstance(arr, SNDArray):
+        raise sx.Unsupported(which + " of " + repr(arr))
+    run.trusted.add(f"library contract: np.{which} = the statistic of the non-NaN entries")
+    return SNum(NANSTAT[which](arr.get()), np=z3.BoolVal(True))
 
 
 # ------------------------------------------------------------------------------------------------
